@@ -261,6 +261,43 @@ def sql_tie(modules, timeout=600):
     return problems
 
 
+def formula_tie(groups, timeout=600):
+    """Translator tie for arithmetic: regenerate lean/FormulaTie/Gen<Group>.lean from <repo>/spowtd/*.py (tools/gen_formulas.py:
+    selected expressions and function bodies -> Lean terms over the model's carrier class) and re-check that each generated
+    definition is the model's (lean/FormulaTie/<Group>.lean, closed by `rfl` or a short unfolding)."""
+    problems = []
+    if not groups:
+        return problems
+    tool = os.path.join(VERIF, "tools", "gen_formulas.py")
+    p = subprocess.run([sys.executable, tool, REPO], capture_output=True, text=True, timeout=timeout)
+    try:
+        report = json.loads(p.stdout.strip().split("\n")[-1]) if p.returncode == 0 else None
+    except ValueError:
+        report = None
+    if report is None:
+        return ["formula translator failed on %s/spowtd: %s" % (REPO, (p.stdout + p.stderr)[-400:])]
+    for g in groups:
+        p = subprocess.run(["lake", "build", "FormulaTie." + g], cwd=LEAN_DIR, capture_output=True, text=True, timeout=timeout)
+        if p.returncode != 0 or report.get(g):
+            lines = [ln for ln in (p.stdout + p.stderr).split("\n") if "error" in ln.lower()][:3]
+            names = []
+            try:
+                with open(os.path.join(LEAN_DIR, "FormulaTie", g + ".lean")) as fh:
+                    src = fh.read().split("\n")
+                for ln in lines:
+                    m = re.search(r"FormulaTie/%s\.lean:(\d+):" % g, ln)
+                    if m:
+                        above = [x for x in src[:int(m.group(1))] if x.startswith("theorem ")]
+                        if above and above[-1].split()[1] not in names:
+                            names.append(above[-1].split()[1])
+            except OSError:
+                pass
+            problems.append("formula tie: theorem(s) %s of FormulaTie/%s.lean no longer check: the arithmetic translated from the source "
+                            "is not the model's: %s" % (", ".join("Spowtd.FormulaTie." + n for n in names) or "?", g,
+                                                        " | ".join(report.get(g, []) + lines)[:700]))
+    return problems
+
+
 def modules_of(theorems):
     """the library modules that declare the given property theorems, with everything of the library they import"""
     decl = {}
@@ -303,7 +340,7 @@ def leanchecker(theorems, timeout=3000):
     return []
 
 
-def audit(theorems, timeout=3000, schema_groups=(), sql_modules=(), tier="quick"):
+def audit(theorems, timeout=3000, schema_groups=(), sql_modules=(), tier="quick", formula_groups=()):
     """Build the Lean project, grep for escape hatches, check axioms of `theorems`.
 
     Returns a dict: ok, build_ok, problems [...], axioms {thm: [..]}, cmd.
@@ -325,6 +362,11 @@ def audit(theorems, timeout=3000, schema_groups=(), sql_modules=(), tier="quick"
         if tie2:
             out["ok"] = False
             out["problems"] += tie2
+        tie3 = formula_tie(formula_groups)
+        out["formula_tie"] = {"groups": list(formula_groups), "ok": not tie3}
+        if tie3:
+            out["ok"] = False
+            out["problems"] += tie3
         if tier == "thorough":
             lc = leanchecker(theorems)
             out["leanchecker"] = {"modules": modules_of(theorems), "ok": not lc}
@@ -581,7 +623,7 @@ def write_evidence(ctx, aud, theorems, trusted_base, assumptions, rule, extra=No
         "driver_mode": ctx._driver.mode if ctx._driver else "unused",
         "driver_calls": ctx._driver.calls if ctx._driver else 0,
         "audit_problems": aud["problems"],
-        "translator_ties": {"schema": aud.get("schema_tie"), "sql": aud.get("sql_tie")},
+        "translator_ties": {"schema": aud.get("schema_tie"), "sql": aud.get("sql_tie"), "formulas": aud.get("formula_tie")},
         "leanchecker": aud.get("leanchecker"),
         "notes": ctx.notes,
     }
